@@ -823,6 +823,7 @@ func (t *sourceTracer) TransitionEnd(tx *am.Transition) {
 		trackedIdxs: t.trackedStateIdxs,
 	}
 	t.dataLatest = d
+	verifSyncAt(s, "rpc.tracer.snapshot", d)
 
 	// DEBUG
 	// if srcMach.Id() == "ns-TestPartial" {
